@@ -74,6 +74,23 @@ CLAIMED = {
              "per-record re-parsing of RDLENGTH-delimited prefixes as oracles.",
         technique="Coq proof (cursor and locality lemmas, Forall2 over sections) + model/implementation correspondence with an independent envelope walker",
         ref="DESIGN.md section 6, C05"),
+    "C17": dict(
+        text="Kernel-checked theorems over the transliterated Name::new / LabelsIter / is_valid_label / Display / is_subdomain_of / "
+             "without / is_link_local: Name::new s = Ok ls iff ls are the non-empty dot-separated pieces, each meeting an "
+             "independently stated label grammar, and the name fits 255 bytes; display then re-create is the identity; subdomain, "
+             "suffix removal and link-local are characterised as list equations - for all strings and label lists. Tied to /repo "
+             "by bounded-exhaustive strings (<= 5/6 characters over a hostile alphabet), length boundaries and all name pairs over "
+             "a 2-letter alphabet, with a python grammar as oracle.",
+        technique="Coq proof (list induction) + bounded-exhaustive model/implementation correspondence",
+        ref="DESIGN.md section 6, C17"),
+    "C19": dict(
+        text="Kernel-checked theorems over the transliterated TXT conversions (strings as UTF-8 bytes, from_utf8 modelled by a "
+             "validator): split/join identity with pieces <= 254 bytes; attribute map -> TXT -> attributes() is the identity for "
+             "every iteration order (absent vs empty preserved), first occurrence wins for duplicates; the ';' / '=' splitters cut "
+             "only at those bytes; CharacterString::new refuses > 255 bytes. Tied to /repo by seeded Unicode strings with multi-byte "
+             "characters at chunk boundaries and code points congruent to ';' / '=' modulo 256, wire strings and maps.",
+        technique="Coq proof (list / fold induction) + model/implementation correspondence",
+        ref="DESIGN.md section 6, C19"),
 }
 
 PENDING_REASON = "not claimed yet: model, theorems and correspondence slice for this property are still being built (see DESIGN.md section 10)"
